@@ -123,14 +123,19 @@ static void case_c05(const drvargs_t *a,long id){
     if(c.mode==ENC_MANAGED && rng_chance(&r,0.5)){ c.have_rm2=1; static const double rs[]={0.02,0.1,0.5,2,4}; c.rm2_reservoir_bits_secs=rs[rng_below(&r,5)]; c.rm2_bias=rng_unit(&r); c.rm2_damping= rng_chance(&r,0.5)?0:0.2+2*rng_unit(&r); } }
   else if(mk==5) c.mode=ENC_INIT_VBR;
   if(managed && c.mode==ENC_MANAGED && id%8==3){ c.rm2_disable=1; managed=0; hardmax=0; }   /* limits given to setup_managed, management then switched off by control request: an unmanaged stream, judged as such */
+  if(managed && id%4==1) c.direct_probe=1;                                                  /* vorbis_analysis(vb,&op) is refused on managed streams; the application carries on with addblock on that block */
+  if(id%16==9){ /* a hard maximum that bites for many blocks in a row (as C04's stratum): truncation upon truncation */
+    managed=1; hardmax=1; c.mode=ENC_MANAGED; c.rm2_disable=0; if(c.channels>2) c.channels=2; if(c.rate<32000) c.rate=44100; c.br_nom=(long)(c.rate*c.channels*(0.45+0.35*rng_unit(&r))); c.br_max=-1; c.br_min=-1;
+    c.have_rm2=1; c.rm2_reservoir_bits_secs=0.05+0.2*rng_unit(&r); c.rm2_bias=rng_unit(&r)*0.5; c.rm2_damping=0; c.rm2_avg_off=1; c.rm2_max_kbps=(long)(c.br_nom*(0.6+0.4*rng_unit(&r))/1000); }
   if(id%50==17){ c.channels= 254+(int)rng_below(&r,3); c.rate=44100; }                       /* the ends of the 8-bit channel field: 254, 255 - and 256, which must be refused */
   if(c.mode==ENC_VBR||c.mode==ENC_MANAGED){ if(rng_chance(&r,0.2)) c.coupling_off=1; if(rng_chance(&r,0.2)) c.lowpass_khz=2+rng_unit(&r)*(c.rate/2000.0); if(rng_chance(&r,0.2)) c.impulse_block_bias=-15*rng_unit(&r); }
   static const int sigs[]={SIG_SILENCE,SIG_DC,SIG_TONE,SIG_MULTI,SIG_NOISE,SIG_CLICKS,SIG_SWEEP,SIG_OVER,SIG_DENORM,SIG_ALT,SIG_BURSTS,SIG_IMPULSE,SIG_ENDCLICK};
-  c.sig=sigs[rng_below(&r,13)]; c.sigseed=rng_next(&r); c.nsamples=rng_range(&r,2000,a->thorough?60000:24000); if(c.channels>8) c.nsamples=rng_range(&r,1000,5000);
+  c.sig=sigs[rng_below(&r,13)]; if(id%16==9) c.sig=SIG_NOISE; c.sigseed=rng_next(&r); c.nsamples=rng_range(&r,2000,a->thorough?60000:24000); if(id%16==9 && c.nsamples<20000) c.nsamples=20000+(long)rng_below(&r,30000); if(c.channels>8) c.nsamples=rng_range(&r,1000,5000);
   c.chunk=(int)rng_below(&r,CHUNK_NKINDS); if(c.chunk==CHUNK_1) c.chunk=CHUNK_RANDOM; c.lazy=(int)rng_below(&r,2);
   enccfg_json(&c,desc,sizeof desc);
   encres_t er; int ret=enc_run(&c,&er);
   if(!ret && c.rm2_disable){ res_count("encodes_with_management_switched_off_by_ctl",1); if(er.managed) res_viol("C05","management-still-reported-active","OV_ECTL_RATEMANAGE2_SET(NULL) then GET says active: %s",desc); }
+  if(!ret && er.direct_probe_bad) res_viol("C05","direct-packet-request-not-refused-on-managed-stream","%ld blocks: %s",er.direct_probe_bad,desc);
   if(ret){ res_count("setups_refused",1); res_sample("refused(%d): %s",ret,desc); encres_free(&er); res_end(); return; }
   res_count("encodes",1);
   /* headers: libvorbis, strict parser, field equality */
